@@ -1,8 +1,32 @@
 import Driver.Codec
+import LopdfModel.Model.Sink
 namespace Lopdf.Driver.C19
 open Lopdf Lopdf.Codec
 
-/-- protocol operations of property C19: `none` = not an operation of this property. -/
-def handle (op : String) (args : List String) : Option String := none
+/-- script tokens: `a<k>` accept k, `a<k>x<n>` n times, `i` interrupted, `e` fail, `z` = accept 0 -/
+def parseResp (t : String) : Option (List Resp) :=
+  match t.toList with
+  | ['i'] => some [.interrupted]
+  | ['e'] => some [.fail]
+  | ['z'] => some [.accept 0]
+  | 'a' :: rest =>
+    match (String.ofList rest).splitOn "x" with
+    | [k] => k.toNat?.map fun k => [.accept k]
+    | [k, n] => do let k ← k.toNat?; let n ← n.toNat?; pure (List.replicate n (.accept k))
+    | _ => none
+  | _ => none
+
+/-- `sink <script-token>* ; <chunk-hex>*` -> `ok|err <delivered-len>` -/
+def handle (op : String) (args : List String) : Option String :=
+  match op with
+  | "sink" =>
+    let script := args.takeWhile (· ≠ ";")
+    let chunks := (args.dropWhile (· ≠ ";")).drop 1
+    some <| match script.mapM parseResp, chunks.mapM bytesOfHex with
+    | some rs, some cs =>
+      let r := saveRun cs rs.flatten
+      (if r.ok then "ok " else "err ") ++ toString r.delivered.length
+    | _, _ => "bad-op"
+  | _ => none
 
 end Lopdf.Driver.C19
